@@ -2,7 +2,7 @@ ID = "C13"
 TESTS = [
     T("fusefront", "TestC13FUSEFrontEndModel",
       {"checks": 1200, "shards": 4, "timeout": 300, "steps": 40},
-      {"checks": 12000, "shards": 16, "timeout": 1500, "steps": 60}),
+      {"checks": 8000, "shards": 8, "timeout": 1500, "steps": 60}),
 ]
 ASSUMPTIONS = [
     "fuse: the harness plays a kernel that follows the FUSE protocol: only node IDs from entry replies (LOOKUP/MKDIR/MKNOD/SYMLINK/CREATE/LINK/READDIRPLUS) are used, FORGET counts never exceed the lookups received, a node ID is not used after its last lookup was forgotten, a node with an open handle is never forgotten completely, every handle is released exactly once, READ/LSEEK only on handles opened for reading resp. WRITE/FALLOCATE for writing, OPEN/READ/WRITE only on regular files, READLINK only on symlinks, no SETATTR on symlinks and no size change on anything but regular files, RENAME flags are 0, a directory is never renamed into its own subtree; the one deliberate deviation is the read-only GETATTR probe of forgotten node IDs at the very end of a case (the front end documents a panic for unknown node IDs)",
